@@ -9,6 +9,7 @@
   F19, F22 — witnesses in /verif/corpus and below).
 -/
 import LabreaModel.MonadLemmas
+import LabreaModel.KeysLemmas
 namespace Labrea
 
 /-- `[{k: get_dotted_key(k, o)} for k in ks]`, `none` when some key is not present -/
@@ -171,6 +172,65 @@ theorem keys_not_sufficient_F18 :
       | some (.ok a), some (.ok b) => decide (a = .int (-5)) && decide (b = .int 5)
       | _, _ => false) = true := by
   constructor <;> decide +kernel
+
+/-! ### present-only, for the whole interpreter -/
+
+/-- **keys_present_only.** For every expression (all 23 node kinds, any nesting, datasets with overloads, pre-set and
+    default options, Map, templates, caches in any state and of any kind), every option dictionary and every
+    environment: each key `keys(o)` reports is a string naming an option that IS PRESENT in the caller's dictionary
+    `o` — also below `with_options` / dataset `options=` / `default_options=` wrappers and `Map` assignments, where
+    the inner expression is inspected under *merged* options: keys the wrapper provides are dropped, what remains
+    was found in the caller's own options (`walk_mix_found`).  The one exception is `AllOptions`, which reports
+    the dictionary's top-level names whatever they are (`allOptions_keys_top_level`): the hypothesis excludes
+    runs that consulted one. -/
+theorem keys_present_only (env : Env) (n : Nat) (e : Expr) (o : V) (s s' : St) (ks : V)
+    (h : ev env n .keys e o s = some (.ok ks, s'))
+    (hq : ∀ evt ∈ s'.events, evt.isReadAll = false) :
+    ∀ k ∈ ks.setElems, ∃ key w, k = V.str key ∧ getDotted key o = Lk.found w :=
+  (tri_ev env n .keys e o).post s ks s' h hq rfl
+
+/-- consequently the fingerprint of the node can be computed: every reported key has a value -/
+theorem reported_keys_have_values (env : Env) (n : Nat) (e : Expr) (o : V) (s s' : St) (ks : V)
+    (h : ev env n .keys e o s = some (.ok ks, s')) (hq : ∀ evt ∈ s'.events, evt.isReadAll = false) :
+    ∀ key ∈ keyStrings ks, ∃ w, getDotted key o = Lk.found w := by
+  intro key hkey
+  simp only [keyStrings, List.mem_filterMap] at hkey
+  obtain ⟨k, hk, hs⟩ := hkey
+  obtain ⟨key', w, rfl, hw⟩ := keys_present_only env n e o s s' ks h hq k hk
+  simp only [Option.some.injEq] at hs
+  exact ⟨w, hs ▸ hw⟩
+
+/-- when every key of the list has a value the fingerprint items can be computed (no `KeyError`) -/
+theorem fpItems_total (o : V) : ∀ (ks : List String), (∀ k ∈ ks, ∃ w, getDotted k o = Lk.found w) →
+    ∀ s, ∃ items s', fpItems o ks s = some (.ok items, s')
+  | [], _, s => ⟨[], s, by simp [fpItems, pure_run]⟩
+  | k :: ks, h, s => by
+    obtain ⟨w, hw⟩ := h k (by simp)
+    obtain ⟨items, s', hr⟩ := fpItems_total o ks (fun k' hk' => h k' (by simp [hk'])) { s with events := Event.read k :: s.events }
+    exact ⟨V.dict [(k, w)] :: items, s', by simp [fpItems, getKey, readKey, bind_run, emit_run, pure_run, hw, hr]⟩
+
+/-- **fingerprint_defined.** Whenever `keys(o)` of an expression succeeds (and no `AllOptions` was consulted), the
+    cache key built from it — `[{k: get_dotted_key(k, o)} for k in sorted(keys)]` — can be computed: no reported key
+    is missing from `o`, from any state. -/
+theorem fingerprint_defined (env : Env) (n : Nat) (e : Expr) (o : V) (s s' : St) (ks : V)
+    (h : ev env n .keys e o s = some (.ok ks, s')) (hq : ∀ evt ∈ s'.events, evt.isReadAll = false) (t : St) :
+    ∃ items t', fpItems o (sortStrings (keyStrings ks)) t = some (.ok items, t') :=
+  fpItems_total o _ (fun k hk => reported_keys_have_values env n e o s s' ks h hq k ((sortStrings_mem _ _).mp hk)) t
+
+/-- `AllOptions.keys(o)` is the set of top-level names of `o` -/
+theorem allOptions_keys_top_level (env : Env) (run : Run) (n id : Nat) (kvs : List (String × V)) (s : St) :
+    nodeOp env run n .keys (.allOptions id) (.dict kvs) s =
+      some (.ok (keySet (akeys kvs)), { s with events := Event.readAll :: s.events }) := by
+  simp [nodeOp, bind_run, emit_run, pure_run]
+
+/-- non-vacuity: a key read below pre-set options that merge with the caller's section is reported and present;
+    the key the wrapper provides is not reported -/
+example : (match ev c03Env 30 .keys
+      (.withOptions 4 (.apply 3 (.option 1 "S.X" Option.none Option.none) (.option 2 "S.Y" Option.none Option.none))
+        (.dict [("S", .dict [("Y", .int 1)])]) true)
+      (.dict [("S", .dict [("X", .int 2)])]) {} with
+    | some (.ok ks, s') => decide (ks = .set [.str "S.X"]) && s'.events.all (fun e => !e.isReadAll)
+    | _ => false) = true := by decide +kernel
 
 /-! non-vacuity of the fingerprint theorems -/
 example : fpPure (.dict [("A", .int 1), ("Z", .int 9)]) ["A"] = some [.dict [("A", .int 1)]] := by decide +kernel
